@@ -30,7 +30,7 @@ pub fn def() -> CheckDef {
             real: super::REAL_COMPONENTS,
             stub: super::STUB_COMPONENTS,
         },
-        runs: |t| if t.thorough() { 40_000 } else { 1_200 },
+        runs: |t| if t.thorough() { 400_000 } else { 15_000 },
         run,
         execute,
         expected_probes: &[
